@@ -54,12 +54,12 @@ Proof.
 Qed.
 
 (* ------------------------------------------------------------------ projection on one message *)
-Inductive rt_tag := PTx (b : list Z) | PNack (r : Z) | PAcked.
+Inductive rt_tag := PTx (b : list Z) | PNack (r c mx : Z) | PAcked.
 
 Definition rt_proj1 (u : Z) (o : rt_out) : list rt_tag :=
   match o with
   | RoTx _ u' _ b => if u' =? u then [PTx b] else []
-  | RoNack _ u' _ r _ => if u' =? u then [PNack r] else []
+  | RoNack _ u' _ r _ c mx => if u' =? u then [PNack r c mx] else []
   | RoAcked _ u' => if u' =? u then [PAcked] else []
   | _ => []
   end.
@@ -69,9 +69,17 @@ Lemma rt_proj_app : forall u a b, rt_proj u (a ++ b) = rt_proj u a ++ rt_proj u 
 Proof. intros. unfold rt_proj. apply flat_map_app. Qed.
 
 (* a closed history: transmissions of the same bytes, then exactly one outcome *)
-Definition rt_is_outcome (o : rt_tag) : Prop := o = PAcked \/ exists r, o = PNack r.
+(* an outcome after j retransmissions: removed by an ACK, or one NACK call - reason RST, or
+   reason TOO_MANY_RETRIES and then j is exactly the message's max_retransmit *)
+Definition rt_outcome_ok (j : nat) (o : rt_tag) : Prop :=
+  match o with
+  | PAcked => True
+  | PNack r c mx => Z.of_nat j = c /\ 0 <= c <= mx /\ mx <= 255 /\
+                    (r = rt_NACK_RST \/ (r = rt_NACK_TOO_MANY_RETRIES /\ c = mx))
+  | PTx _ => False
+  end.
 Definition rt_closed (l : list rt_tag) : Prop :=
-  exists b j o, l = repeat (PTx b) (S j) ++ [o] /\ (j <= 255)%nat /\ rt_is_outcome o.
+  exists b j o, l = repeat (PTx b) (S j) ++ [o] /\ (j <= 255)%nat /\ rt_outcome_ok j o.
 (* an open history of a queued node: cnt + 1 transmissions of its bytes *)
 Definition rt_open (n : sq_node) (l : list rt_tag) : Prop :=
   l = repeat (PTx (qn_bytes n)) (S (Z.to_nat (qn_cnt n))).
@@ -171,14 +179,14 @@ Qed.
 
 (* the head node leaves the queue with one outcome *)
 Lemma rt_rel_drop : forall tr k n ns o tag,
-  rt_is_outcome tag ->
+  (rt_node_ok tr k n -> rt_outcome_ok (Z.to_nat (qn_cnt n)) tag) ->
   rt_proj (qn_uid n) o = [tag] ->
   (forall u, u <> qn_uid n -> rt_proj u o = []) ->
   rt_rel tr k (n :: ns) ->
   rt_rel (tr ++ o) k ns.
 Proof.
   intros tr k n ns o tag Ho Po Pother (K & D & F & C).
-  inversion F as [|? ? (A & B & M & O) F']; subst.
+  inversion F as [|? ? NO F']; subst. pose proof (Ho NO) as Ho'. destruct NO as (A & B & M & O).
   cbn in D. inversion D as [|? ? Dn D']; subst.
   split; [exact K|]. split; [exact D'|]. split.
   - rewrite Forall_forall in *. intros n' I. destruct (F' n' I) as (A' & B' & M' & O').
@@ -187,7 +195,7 @@ Proof.
   - intros u Hu. rewrite rt_proj_app. destruct (Z.eq_dec u (qn_uid n)) as [E|Ne].
     + subst u. rewrite Po. split; [|intros; lia]. intros _.
       unfold rt_open in O. rewrite O. exists (qn_bytes n), (Z.to_nat (qn_cnt n)), tag.
-      split; [reflexivity|]. split; [lia|exact Ho].
+      split; [reflexivity|]. split; [lia|exact Ho'].
     + rewrite Pother by exact Ne. rewrite app_nil_r. apply C. cbn.
       intros [X|X]; [apply Ne; congruence|apply Hu; exact X].
 Qed.
@@ -213,7 +221,8 @@ Proof.
     split; [|exact N]. rewrite U.
     eapply rt_rel_perm; [apply Permutation_sym; exact P|]. apply rt_rel_bump; [lia|exact R].
   - split; [|reflexivity].
-    eapply rt_rel_drop with (n := n) (tag := PNack rt_NACK_TOO_MANY_RETRIES); [right; eauto| | |exact R].
+    eapply rt_rel_drop with (n := n) (tag := PNack rt_NACK_TOO_MANY_RETRIES (qn_cnt n) (qn_max n));
+      [intros (A & B & M & O); cbn; repeat split; try lia | | |exact R].
     + cbn. rewrite Z.eqb_refl. reflexivity.
     + intros u Hu. cbn. assert (X : (qn_uid n =? u) = false) by lia. rewrite X. reflexivity.
 Qed.
@@ -269,7 +278,7 @@ Proof.
   - unfold rt_ack, rt_fire_all. destruct (sq_remove (rs_q st) s m) as [[[t n] q']|] eqn:Rm.
     + destruct (rt_nodes_remove _ _ _ _ _ _ Rm) as [P _].
       assert (R1 : rt_rel (tr ++ [RoAcked (rs_now st) (qn_uid n)]) (rs_uid st) (rt_nodes q')).
-      { eapply rt_rel_drop with (n := n) (tag := PAcked); [left; reflexivity| | |].
+      { eapply rt_rel_drop with (n := n) (tag := PAcked); [intros _; exact I| | |].
         - cbn. rewrite Z.eqb_refl. reflexivity.
         - intros u Hu. cbn. assert (X : (qn_uid n =? u) = false) by lia. rewrite X. reflexivity.
         - eapply rt_rel_perm; [exact P|exact R]. }
@@ -280,9 +289,11 @@ Proof.
       destruct (rt_fire (rt_budget (rs_q st)) st) as [st1 o]. destruct H as [H _]. exact H.
   - unfold rt_rst, rt_fire_all. destruct (sq_remove (rs_q st) s m) as [[[t n] q']|] eqn:Rm.
     + destruct (rt_nodes_remove _ _ _ _ _ _ Rm) as [P _].
-      assert (R1 : rt_rel (tr ++ [RoNack (rs_now st) (qn_uid n) (qn_sess n) rt_NACK_RST (qn_mid n)])
+      assert (R1 : rt_rel (tr ++ [RoNack (rs_now st) (qn_uid n) (qn_sess n) rt_NACK_RST (qn_mid n)
+                                         (qn_cnt n) (qn_max n)])
                           (rs_uid st) (rt_nodes q')).
-      { eapply rt_rel_drop with (n := n) (tag := PNack rt_NACK_RST); [right; eauto| | |].
+      { eapply rt_rel_drop with (n := n) (tag := PNack rt_NACK_RST (qn_cnt n) (qn_max n));
+          [intros (A & B & M & O); cbn; repeat split; try lia; left; reflexivity| | |].
         - cbn. rewrite Z.eqb_refl. reflexivity.
         - intros u Hu. cbn. assert (X : (qn_uid n =? u) = false) by lia. rewrite X. reflexivity.
         - eapply rt_rel_perm; [exact P|exact R]. }
